@@ -220,7 +220,7 @@ SPEC = {
         "elab_rejects_assign_to_rvalue_form", "elab_rejects_increment_of_rvalue_form",
         "assignment_operands", "binary_operands_equal", "binop_rules",
         "elab_assign_exact", "elab_arith_exact", "elab_call_args_exact",
-        "out_arg_receives_cast"]] + [TX + n for n in [
+        "elab_out_args_are_lvalues", "out_arg_not_converted", "elab_arith_vector_kind_concrete", "elab_tern_vector_kind_concrete"]] + [TX + n for n in [
         # the extended language (swizzles, members, subscripts, constructors, intrinsic functions, statements)
         "elab_sound", "elab_debug_check_redundant", "elab_stmt_sound", "ids_in_range",
         "elab_rejects_const_write", "elab_rejects_rvalue_write", "elab_rejects_rvalue_out_arg",
@@ -233,13 +233,17 @@ SPEC = {
         "elab_rejects_index_type", "elab_index_exact", "elab_rejects_write_to_repeated_swizzle",
         "matrix_swizzle_at_most_four", "vector_swizzle_longer_than_four_accepted",
         "elab_rejects_const_write_chain", "elab_rejects_const_increment_chain", "elab_rejects_const_array_write_chain",
-        "elab_rejects_const_out_arg_chain", "elab_rejects_readonly_resource_write_chain", "elab_rejects_rvalue_write_chain_partial",
-        "elab_rejects_rvalue_out_arg_chain_partial",
+        "elab_rejects_const_out_arg_chain", "elab_rejects_readonly_resource_write_chain",
+        # fix batch 2: every object on the way to the written part must be a mutable lvalue
+        "elab_rejects_write_chain", "elab_rejects_increment_chain", "elab_rejects_out_arg_chain",
+        "elab_rejects_const_struct_write_chain", "elab_rejects_const_array_assignment",
+        "elab_rejects_rvalue_write_chain", "elab_rejects_rvalue_out_arg_chain",
+        "elab_assign_target_is_place", "elab_increment_operand_is_place", "elab_out_args_are_places",
+        "place_is_not_a_conversion",
         "assignment_operands", "binary_operands_equal", "binop_rules",
         "elab_assign_exact", "elab_arith_exact", "elab_call_args_exact", "elab_intrinsic_call_exact",
         "resource_index_widths", "resource_element_constness",
-        "swizzle_in_range", "matrix_swizzle_in_range", "member_of_struct", "ctor_slots_exact",
-        "const_struct_member_write_accepted", "rvalue_subscript_write_accepted", "const_array_assignment_accepted"]],
+        "swizzle_in_range", "matrix_swizzle_in_range", "member_of_struct", "ctor_slots_exact"]],
     "harness": "c03",
     "nontrivial": nontrivial,
     "finding_key": finding_key,
@@ -256,12 +260,16 @@ SPEC = {
                   "struct, constructor slot contract), that every expression on every path of an accepted statement list is typed, "
                   "returns / initialisers (every leaf of an aggregate) have exactly the required type, and that writes (assignment "
                   "family, ++/--, out/inout arguments of user and intrinsic functions) to const or rvalue expressions — including "
-                  "through projection chains of any length (swizzles, subscripts) on const scalars / vectors / matrices, arrays "
-                  "of const elements and read-only resources —, wrong arity, unconvertible arguments, wrong return / initialiser types, wrong constructor "
-                  "component counts and non-integer subscripts are never accepted. Where the full statement is false on the code it "
-                  "is proved partially and the negation is a decide-checked witness replayed on the implementation: a member of a "
-                  "const struct is written, an element of a non-lvalue is written, an array of const elements is assigned, an "
-                  "rvalue cast reaches an out parameter.",
+                  "through projection chains of any length (struct members, swizzles, matrix swizzles, subscripts) on any object "
+                  "that is const (scalar / vector / matrix / struct / array of const elements), read-only (elements of read-only "
+                  "resources) or not an lvalue, as long as no buffer / texture is subscripted on the way (its elements are not part "
+                  "of the handle's value) —, wrong arity, unconvertible arguments, wrong return / initialiser types, wrong constructor "
+                  "component counts and non-integer subscripts are never accepted. Positively: the target of every accepted "
+                  "assignment, the operand of every accepted ++/-- and every out/inout argument of an accepted call is a mutable "
+                  "place (itself and every object on the way to the variable is a non-const lvalue under the IR's typing judgment), "
+                  "hence never the result of a conversion; vector / matrix operators are never done in an untyped literal kind. "
+                  "Where the full statement is false on the code the negation is a decide-checked witness replayed on the "
+                  "implementation: a scalar / vector swizzle may name more than four components.",
     "rule": "C03.conv = one row of the exhaustive find/get_target_type table over 8 scalar kinds x {scalar, vec1-4, 2 matrices} "
             "+ enums + structs x modifier sets x {lvalue,rvalue}. C03.prog = (local variable types, function prototypes, return "
             "type, one statement) compiled as an RSSL program through the real type_check: every unary operator on every "
@@ -285,15 +293,19 @@ SPEC = {
         "tools/gens/c16.py (RankTable) and tools/gens/c03.py (TypingTables: IntrinsicOp, the asserts and result shape of every "
         "arm of get_return_type, ast BinOp/UnaryOp, the operator maps / classes / require_integer / short-circuit lists of "
         "parse_expr_binop, get_non_vector_conversion_rank, most_sig_scalar::get_order, is_integer_or_bool_or_enum, the "
-        "literal re-tagging tables of ImplicitConversion::apply; IntrinsicSigs: the INTRINSICS table expanded as add_intrinsics "
+        "literal re-tagging tables of ImplicitConversion::apply, the literal-kind remap of vector / matrix operators, the pinned call "
+        "sites and bodies of check_mutable_place / check_output_arguments; IntrinsicSigs: the INTRINSICS table expanded as add_intrinsics "
         "registers it; ElabTables: the swizzle character tables and the arm lists of member access / subscript / aggregate "
         "initialiser) — re-run on /repo's working tree every time",
         "hand-written Model/Conv.lean (find, get_target_type), Model/Ty.lean, Model/IrTyping.lean + IrTypingX.lean (get_type), "
-        "Model/Elab.lean + ElabX.lean (parse_expr_*, apply, member access, read_matrix_subscript, subscripts, constructors), "
+        "Model/Elab.lean + ElabX.lean (parse_expr_*, apply, member access, read_matrix_subscript, subscripts, constructors, "
+        "check_mutable_place / check_output_arguments / TypeRegistry::is_const: written from source copies the translator pins "
+        "verbatim together with their call sites), "
         "Model/StmtX.lean (parse_statement, parse_initializer, scopes), Model/Intrinsics.lean — tied to the code by the "
         "correspondence run only",
-        "Spec/ElabX.lean (StmtsTyped, InitTyped, RetExact, projection chains) is our reading of 'every initialiser, return ... "
-        "receives operands of exactly the types it requires'",
+        "Spec/ElabX.lean (StmtsTyped, InitTyped, RetExact, projection chains; MutablePlace / ConstTy / ProjOf) is our reading of "
+        "'every initialiser, return ... receives operands of exactly the types it requires' and of 'write to const or non-lvalue "
+        "expressions'",
         "the harness oracle (harness/src/c03.rs: check rules of Walk::expr, the declaration-based write oracle Walk::place) is "
         "our reading of 'exactly the types it requires' and of 'write to const or non-lvalue expressions'",
     ],
